@@ -28,6 +28,14 @@ def jobs(tier):
                 out.append((dict(base, name="c09-{0}-max{1}min{2}-op{3}".format(pname, mx, mn, k), twin_prog="progress"), full))
                 if thorough and mx <= 2 and k % 2 == 0:
                     out.append((dict(base, name="c09-{0}-max{1}min{2}-op{3}".format(pname, mx, mn, k), twin_prog="progress"), ctx))
+        # a worker at its retirement decision / idle time-out while the client enqueues again
+        if mn < mx:
+            ops = ["start", "enq0", "await0", "enq1", "await1"]
+            base = {"max": mx, "min": mn, "tasks": ["ret", "ret"], "clients": [ops], "props": PROPS, "window_at": 3, "twin_prog": "progress"}
+            out.append((dict(base, name="c09-retire-max{0}min{1}-aftertask".format(mx, mn)), dict(full, depth=full["depth"] + 2)))
+            for w in range(mx):
+                out.append((dict(base, name="c09-retire-max{0}min{1}-idle{2}".format(mx, mn, w),
+                                 prefix=[("until", 1 + w, {"label": "Queue.get"})]), dict(full, depth=full["depth"] + 2)))
         # two enqueuing clients, from the constructed pool
         base = {"max": mx, "min": mn, "tasks": ["ret", "ret"], "clients": [["start", "enq0", "await0"], ["enq1", "await1"]],
                 "props": ["exactly_once", "results", "bounded"], "window_at": 0, "twin_prog": "progress"}
